@@ -110,7 +110,7 @@ func rowTest(atom string, w *writePoint) (isTest, lostOnTrue bool) {
 }
 
 // awaitOrigins collects the positions of the gocoro await calls an expression derives from.
-func (pe *provEnv) awaitOrigins(e ast.Expr, depth int, out map[token.Pos]bool) {
+func (pe *provEnv) awaitOrigins(e ast.Expr, depth int, out map[token.Pos]bool, path ...ast.Node) {
 	if e == nil || depth > 12 {
 		return
 	}
@@ -131,6 +131,18 @@ func (pe *provEnv) awaitOrigins(e ast.Expr, depth int, out map[token.Pos]bool) {
 			if _, ok := obj.(*types.Var); !ok {
 				return true
 			}
+			// on a walked path the latest assignment along the path is the one that reaches
+			for i := len(path) - 1; i >= 0; i-- {
+				if path[i].Pos() >= x.Pos() {
+					continue
+				}
+				if rhs, ok := assignsTo(info, path[i], obj); ok && len(rhs) > 0 {
+					for _, r := range rhs {
+						pe.awaitOrigins(r, depth+1, out, path[:i]...)
+					}
+					return true
+				}
+			}
 			var real []ast.Node
 			for _, d := range pe.defs[obj] {
 				if vs, ok := d.(*ast.ValueSpec); ok && len(vs.Values) == 0 {
@@ -150,14 +162,14 @@ func (pe *provEnv) awaitOrigins(e ast.Expr, depth int, out map[token.Pos]bool) {
 						continue
 					}
 					for _, r := range s.Rhs {
-						pe.awaitOrigins(r, depth+1, out)
+						pe.awaitOrigins(r, depth+1, out, path...)
 					}
 				case *ast.ValueSpec:
 					for _, r := range s.Values {
-						pe.awaitOrigins(r, depth+1, out)
+						pe.awaitOrigins(r, depth+1, out, path...)
 					}
 				case *ast.RangeStmt:
-					pe.awaitOrigins(s.X, depth+1, out)
+					pe.awaitOrigins(s.X, depth+1, out, path...)
 				}
 			}
 		}
@@ -335,7 +347,7 @@ func (c *Ctx) casRule(kinds []string) {
 							where = rs.Pos()
 							return
 						}
-						stale := c.staleFields(cf, lit, w)
+						stale := c.staleFields(cf, lit, w, path)
 						if len(stale) > 0 {
 							problems = append(problems, "the response returned at "+c.P.pos(rs.Pos())+" still carries "+strings.Join(stale, ", ")+" read before the write")
 							where = rs.Pos()
@@ -432,7 +444,7 @@ func (c *Ctx) responseLiteral(cf *coroFunc, e ast.Expr, path []ast.Node) *ast.Co
 
 // staleFields lists payload fields of a response literal that derive from a store read awaited
 // before the write point w.
-func (c *Ctx) staleFields(cf *coroFunc, lit *ast.CompositeLit, w *writePoint) []string {
+func (c *Ctx) staleFields(cf *coroFunc, lit *ast.CompositeLit, w *writePoint, path []ast.Node) []string {
 	var out []string
 	var visit func(cl *ast.CompositeLit, prefix string)
 	visit = func(cl *ast.CompositeLit, prefix string) {
@@ -458,7 +470,7 @@ func (c *Ctx) staleFields(cf *coroFunc, lit *ast.CompositeLit, w *writePoint) []
 				continue
 			}
 			origins := map[token.Pos]bool{}
-			cf.Env.awaitOrigins(kv.Value, 0, origins)
+			cf.Env.awaitOrigins(kv.Value, 0, origins, path...)
 			for pos := range origins {
 				if pos < w.Call.Pos() {
 					out = append(out, prefix+name+" ("+exprString(kv.Value)+")")
